@@ -18,6 +18,8 @@ import (
 	"fmt"
 	"go/types"
 	"math/big"
+	"reflect"
+	"strings"
 )
 
 type StreamObj struct {
@@ -29,8 +31,9 @@ type StreamObj struct {
 	// blocking: one direction of an in-process connection (verifapi.NewPipe): a read with nothing
 	// pending waits for a write or Close; one message per read (read-ahead is the loop-back stream's subject)
 	blocking bool
-	sizes    []*Term      // symbolic byte length of each message (1..4096), created on demand
+	sizes    []*Term       // symbolic byte length of each message (1..4096), created on demand
 	limiters []*readerWrap // io.LimitReader wrappers decoders read this stream through
+	mistyped map[int]bool  // message i is a complete JSON value whose "jsonrpc" member has the wrong type (verifapi.WriteMistyped)
 }
 
 func (s *StreamObj) implements(it *types.Interface) bool { return true }
@@ -107,6 +110,22 @@ func init() {
 		}
 		return nil
 	})
+	// WriteMistyped(w, v): v's encoding with the "jsonrpc" member replaced by a number
+	regV(apiPkg+".WriteMistyped", func(m *Machine, g *Goroutine, a []Value) Value {
+		s := streamOf(a[0])
+		if s == nil {
+			panic(abortf("WriteMistyped on something that is not a verifapi stream"))
+		}
+		if s.mistyped == nil {
+			s.mistyped = map[int]bool{}
+		}
+		s.mistyped[len(s.msgs)] = true
+		s.msgs = append(s.msgs, m.deepCopy(a[1], map[*Obj]*Obj{}))
+		return nil
+	})
+	regV("(*encoding/json.UnmarshalTypeError).Error", func(m *Machine, g *Goroutine, a []Value) Value {
+		return StrVal{s: "json: cannot unmarshal number into Go struct field of type string"}
+	})
 	regV(apiPkg+".NewPipe", func(m *Machine, g *Goroutine, a []Value) Value {
 		m.nextID++
 		return IfaceVal{typ: m.ld.ctxMarker, v: &StreamObj{id: m.nextID, blocking: true}}
@@ -150,7 +169,7 @@ func init() {
 			if len(d.limiters) > 0 && !m.consumeThrough(d, s, i) {
 				return m.newErrorValue("unexpected EOF"), stNext
 			}
-			return m.jsonStoreInto(s.msgs[i], a[1]), stNext
+			return m.streamDeliver(s, i, a[1]), stNext
 		}
 		return streamDecode(m, g, a), stNext
 	})
@@ -176,7 +195,7 @@ func streamDecode(m *Machine, g *Goroutine, a []Value) Value {
 				if len(d.limiters) > 0 && !m.consumeThrough(d, s, i) {
 					return m.newErrorValue("unexpected EOF")
 				}
-				return m.jsonStoreInto(s.msgs[i], a[1])
+				return m.streamDeliver(s, i, a[1])
 			}
 			if d.cut {
 				return m.newErrorValue("EOF")
@@ -271,8 +290,36 @@ func init() {
 	regV("github.com/gorilla/websocket.IsUnexpectedCloseError", func(m *Machine, g *Goroutine, a []Value) Value { return tFalse })
 }
 
+// streamDeliver decodes message i of the stream into dst.
+func (m *Machine) streamDeliver(s *StreamObj, i int, dst Value) Value {
+	if !s.mistyped[i] {
+		return m.jsonStoreInto(s.msgs[i], dst)
+	}
+	// encoding/json records the type mismatch, goes on decoding the other members and returns the
+	// recorded *json.UnmarshalTypeError at the end: the destination is filled except for that member
+	if err := m.jsonStoreIntoSkipping(s.msgs[i], dst, "jsonrpc"); !isNilIface(err) {
+		return err
+	}
+	jp := m.ld.ssaPkgs["encoding/json"]
+	if jp == nil || jp.Type("UnmarshalTypeError") == nil {
+		return m.freshError("json: cannot unmarshal number into Go struct field of type string")
+	}
+	t := jp.Type("UnmarshalTypeError").Type()
+	o := m.newObj(m.zero(t), t, "json.UnmarshalTypeError")
+	return IfaceVal{typ: types.NewPointer(t), v: PtrVal{obj: o}}
+}
+
+func isNilIface(v Value) bool {
+	iv, ok := v.(IfaceVal)
+	return ok && iv.typ == nil
+}
+
 // jsonStoreInto stores a transported value (what Encode was given) into the destination pointer.
 func (m *Machine) jsonStoreInto(src Value, dst Value) Value {
+	return m.jsonStoreIntoSkipping(src, dst, "")
+}
+
+func (m *Machine) jsonStoreIntoSkipping(src Value, dst Value, skip string) Value {
 	iv, ok := dst.(IfaceVal)
 	if !ok || iv.typ == nil {
 		return m.freshError("json: Unmarshal(nil)")
@@ -299,8 +346,98 @@ func (m *Machine) jsonStoreInto(src Value, dst Value) Value {
 	if !types.AssignableTo(st, pt.Elem()) {
 		return m.freshError("json: cannot unmarshal into a value of a different type")
 	}
-	m.store(p, m.rawMessageReuse(pt.Elem(), m.load(p), val))
+	m.store(p, m.jsonMerge(pt.Elem(), m.load(p), val, skip))
 	return IfaceVal{}
+}
+
+// jsonMerge reproduces what decoding does to a destination that already holds something: a member
+// that is absent on the wire (an omitempty field holding its empty value, the fields of a nil embedded
+// pointer) leaves the destination's field as it is, an existing pointee is decoded into rather than
+// replaced, and a json.RawMessage reuses its backing array (rawMessageReuse). skip names a top-level
+// member whose wire value has the wrong type (left untouched). With a zero destination - every decode
+// in the shipped code - this is plain assignment.
+func (m *Machine) jsonMerge(t types.Type, cur, nv Value, skip string) Value {
+	st, ok := t.Underlying().(*types.Struct)
+	if !ok {
+		return m.rawMessageReuse(t, cur, nv)
+	}
+	if n, ok := t.(*types.Named); ok && n.Obj().Pkg() != nil && (n.Obj().Pkg().Path() == "time" || n.Obj().Pkg().Path() == "math/big") {
+		return nv
+	}
+	cv, ok1 := cur.(StructVal)
+	nw, ok2 := nv.(StructVal)
+	if !ok1 || !ok2 || len(cv.f) != len(nw.f) || len(nw.f) != st.NumFields() {
+		return nv
+	}
+	f := make([]Value, len(nw.f))
+	copy(f, nw.f)
+	for i := 0; i < st.NumFields(); i++ {
+		fld := st.Field(i)
+		name, omitempty := fld.Name(), false
+		if tag, ok := reflect.StructTag(st.Tag(i)).Lookup("json"); ok {
+			parts := strings.Split(tag, ",")
+			if parts[0] != "" {
+				name = parts[0]
+			}
+			for _, o := range parts[1:] {
+				omitempty = omitempty || o == "omitempty"
+			}
+		}
+		if skip != "" && name == skip {
+			f[i] = cv.f[i]
+			continue
+		}
+		ft := fld.Type()
+		if pt, isPtr := ft.Underlying().(*types.Pointer); isPtr {
+			np, okn := nw.f[i].(PtrVal)
+			cp, okc := cv.f[i].(PtrVal)
+			if !okn || !okc {
+				continue
+			}
+			if np.obj == nil {
+				if fld.Embedded() || omitempty {
+					f[i] = cv.f[i] // absent on the wire
+				}
+				continue
+			}
+			if cp.obj != nil {
+				if _, isStruct := pt.Elem().Underlying().(*types.Struct); isStruct {
+					// decoded into the existing pointee
+					m.store(cp, m.jsonMerge(pt.Elem(), m.load(cp), m.load(np), ""))
+					f[i] = cv.f[i]
+				}
+			}
+			continue
+		}
+		if omitempty && jsonEmptyValue(nw.f[i]) {
+			f[i] = cv.f[i]
+			continue
+		}
+		f[i] = m.jsonMerge(ft, cv.f[i], nw.f[i], "")
+	}
+	return StructVal{f}
+}
+
+// jsonEmptyValue: encoding/json's "empty" for omitempty, decided on concrete values only.
+func jsonEmptyValue(v Value) bool {
+	switch x := v.(type) {
+	case SliceVal:
+		return x.len == 0
+	case StrVal:
+		return x.concrete() && x.s == ""
+	case MapVal:
+		return x.m == nil || len(x.m.keys) == 0
+	case IfaceVal:
+		return x.typ == nil
+	case *Term:
+		if x.isConst() {
+			if x.sort == SBool {
+				return !x.bv
+			}
+			return x.iv.Sign() == 0
+		}
+	}
+	return false
 }
 
 // rawMessageReuse reproduces one piece of encoding/json that matters for aliasing: decoding into a
